@@ -85,7 +85,11 @@ def gen_var(rng, name, depth=0):
             ptxt, pn = gen_var(rng, "a%d" % j if rng.random() < 0.7 else "", depth + 1)
             params.append(ptxt)
             nat = nat and pn
-        s += " (*%s%s)(%s)" % (rng.choice(["", "", "* ", "* const "]), name, ", ".join(params))
+        if rng.random() < 0.15:
+            # a REFERENCE to a function inside the parentheses: in the C rendering it is a pointer to the function
+            s += " (&%s)(%s)" % (name, ", ".join(params))
+        else:
+            s += " (*%s%s)(%s)" % (rng.choice(["", "", "* ", "* const "]), name, ", ".join(params))
         native = native and nat
     else:
         s += " " + name
